@@ -1,7 +1,7 @@
 """Harness sets of the statechart step harness (h_fsm.rs) shared by C01, C02, C06, C07."""
 
 QUICK = [
-    ('h_start_all', 'start-up of all 13 catalogue shapes, early/late binding'),
+    ('h_start_all', 'start-up of all 15 catalogue shapes, early/late binding'),
     ('h_sc1_s0', 'flat, T=1 full'), ('h_sc1_s1', 'compound, T=1 full'), ('h_sc1_s2', 'depth 3, T=1 full'),
     ('h_sc1_s3', 'parallel 2 regions, T=1 light'), ('h_sc1_s4', 'shallow history, T=1 full'), ('h_sc1_s5', 'deep history, T=1 full'),
     ('h_sc1_s6', 'finals, T=1 full'), ('h_sc1_s7', 'parallel with finals, T=1 light'), ('h_sc1_s8', 'parallel + history in region, T=1 light'),
